@@ -168,11 +168,74 @@ pub fn run_limit(q: &str, d: u32, probe_keys: &[String]) -> Result<u64, String> 
     .and_then(|x| x)
 }
 
+/// Systematic family of keys at 0..5 edits from `q`: for every start position,
+/// stride in {1,3,11} and edit count e, the positions start+j*stride (mod |q|)
+/// are deleted / inserted before / substituted in turn.
+pub fn edit_family(q: &str) -> Vec<String> {
+    let qc: Vec<char> = q.chars().collect();
+    let pool: Vec<char> = "aeo z\u{e9}\u{2603}".chars().collect();
+    let mut out: std::collections::BTreeSet<String> = std::collections::BTreeSet::new();
+    out.insert(q.to_string());
+    out.insert(String::new());
+    for e in 1..=5usize {
+        for start in 0..qc.len() {
+            for stride in [1usize, 3, 11] {
+                let mut pos: Vec<(usize, usize)> = (0..e).map(|j| ((start + j * stride) % qc.len(), start + j)).collect();
+                pos.sort();
+                pos.dedup_by_key(|x| x.0);
+                let mut v = qc.clone();
+                for &(p, j) in pos.iter().rev() {
+                    match j % 3 {
+                        0 => { v.remove(p); }
+                        1 => v.insert(p, pool[j % pool.len()]),
+                        _ => v[p] = pool[j % pool.len()],
+                    }
+                }
+                out.insert(v.into_iter().collect());
+            }
+        }
+    }
+    out.into_iter().collect()
+}
+
+/// Large automata (raised state limit): byte walk and Set::search against Wagner-Fischer.
+pub fn run_large(q: &str, d: u32) -> Result<(u64, usize), String> {
+    guard(|| {
+        let lev = Levenshtein::new_with_limit(q, d, 3_000_000).map_err(|e| format!("new_with_limit({:?},{},3000000) failed: {}", q, d, e))?;
+        let states = lev.verif_num_states();
+        let qc: Vec<char> = q.chars().collect();
+        let keys = edit_family(q);
+        let mut want: Vec<String> = vec![];
+        for k in &keys {
+            let kc: Vec<char> = k.chars().collect();
+            let dist = edit_distance(&qc, &kc);
+            let mut st = lev.start();
+            for &b in k.as_bytes() {
+                st = lev.accept(&st, b);
+            }
+            if lev.is_match(&st) != (dist <= d as usize) {
+                return Err(format!("q={:?} d={} ({} states) key={:?}: automaton says {}, edit distance is {}", q, d, states, k, lev.is_match(&st), dist));
+            }
+            if dist <= d as usize {
+                want.push(k.clone());
+            }
+        }
+        let set = Set::from_iter(keys.iter()).map_err(|e| format!("{:?}", e))?;
+        let got = set.search(&lev).into_stream().into_strs().map_err(|e| format!("{:?}", e))?;
+        if got != want {
+            return Err(format!("q={:?} d={} ({} states): Set::search returned {} keys, expected {}", q, d, states, got.len(), want.len()));
+        }
+        Ok((keys.len() as u64 + 1, states))
+    })
+    .and_then(|x| x)
+}
+
 pub fn replay(case: &Value) -> Result<String, String> {
     let q = case["q"].as_str().unwrap();
     let d = case["d"].as_u64().unwrap() as u32;
     let kl = case["klen"].as_u64().unwrap_or(3) as usize;
     match case["kind"].as_str().unwrap() {
+        "large" => run_large(q, d).map(|(n, st)| format!("{} keys agree ({} states)", n, st)),
         "limit" => run_limit(q, d, &strings(2)).map(|n| format!("{} limits behave", n)),
         "search" => {
             let mut keys = strings(kl);
@@ -191,7 +254,7 @@ pub fn plan(tier: Tier) -> Plan {
     let mut p = Plan::new("C17", "model_checking");
     let thorough = tier.thorough();
     let klen = if thorough { 5 } else { 4 };
-    p.rule = format!("alphabet A8 = {{a, e-acute, e-circumflex, U+2603, U+2602, U+1F600, U+1F601, U+1D11E}} (1/2/2/3/3/4/4/4 bytes; pairs sharing lead and continuation bytes); ALL queries q with |q| <= 3 (585) x d in {{0,1,2}} x ALL keys k with |k| <= {} : the UTF-8 bytes of k are fed through start/accept and is_match is compared with Wagner-Fischer on scalar values; can_match must be true on every proper prefix of a matching key; additionally all |q| <= 2 (thorough 3) x |k| <= 3 (4) over A11 = A8 + three characters sharing only the FINAL byte with a character of A8, and all |q| <= 6 (7) x |k| <= 6 (8) over {{a, b, e-acute}} (long queries with repeated characters); the same queries as Set/Map::search (also under complement() and starts_with()) over the set of all keys of length <= 3; state limit: for every (q,d) with |q| <= 2, N = states of the unlimited build (hook H4), new_with_limit(q,d,l) for every l in 0..=N+2 is TooManyStates(l) iff l < N and otherwise answers like the unlimited automaton. non-trivial = (q,d,k) triples with q != k and both non-empty", klen);
+    p.rule = format!("alphabet A8 = {{a, e-acute, e-circumflex, U+2603, U+2602, U+1F600, U+1F601, U+1D11E}} (1/2/2/3/3/4/4/4 bytes; pairs sharing lead and continuation bytes); ALL queries q with |q| <= 3 (585) x d in {{0,1,2}} x ALL keys k with |k| <= {} : the UTF-8 bytes of k are fed through start/accept and is_match is compared with Wagner-Fischer on scalar values; can_match must be true on every proper prefix of a matching key; additionally all |q| <= 2 (thorough 3) x |k| <= 3 (4) over A11 = A8 + three characters sharing only the FINAL byte with a character of A8, and all |q| <= 6 (7) x |k| <= 6 (8) over {{a, b, e-acute}} (long queries with repeated characters); the same queries as Set/Map::search (also under complement() and starts_with()) over the set of all keys of length <= 3; state limit: for every (q,d) with |q| <= 2, N = states of the unlimited build (hook H4), new_with_limit(q,d,l) for every l in 0..=N+2 is TooManyStates(l) iff l < N and otherwise answers like the unlimited automaton; finite family of large automata behind new_with_limit(3000000): sentences of 16..70 characters (ASCII and accented) with d = 1..4 (up to more than 2^16 states), each against a systematic family of keys 0..5 edits away (every start position x strides 1,3,11), byte walk and Set::search. non-trivial = (q,d,k) triples with q != k and both non-empty", klen);
     p.assumptions = vec!["edit distance = insertions, deletions, substitutions of Unicode scalar values (no transpositions)".into()];
     let queries = strings(3);
     let keys = Arc::new(strings(klen));
@@ -280,6 +343,39 @@ pub fn plan(tier: Tier) -> Plan {
             }));
         }
     }
+    // large automata behind a raised state limit (up to > 2^16 states; thorough > 2^17)
+    {
+        let sentence = "the quick brown fox jumps over the lazy dog and runs away to the hills";
+        let accented = "le c\u{153}ur d\u{e9}\u{e7}u mais l'\u{e2}me plut\u{f4}t na\u{ef}ve \u{2603} \u{1F600} fin";
+        let mut cases: Vec<(String, u32)> = vec![];
+        for (n, d) in [(20usize, 3u32), (30, 3), (43, 3), (50, 3), (57, 3), (60, 3), (16, 4), (22, 4), (26, 4), (57, 2), (70, 2), (70, 1)] {
+            cases.push((sentence.chars().take(n).collect(), d));
+        }
+        for (n, d) in [(20usize, 3u32), (40, 3), (47, 3), (20, 4), (47, 2)] {
+            cases.push((accented.chars().take(n).collect(), d));
+        }
+        if thorough {
+            cases.push((sentence.to_string(), 3));
+            cases.push((sentence.chars().take(32).collect(), 4));
+            cases.push((sentence.chars().take(20).collect(), 5));
+        }
+        for (q, d) in cases {
+            p.units.push(unit("large-automata-raised-limit-(finite-family)", format!("large q={:?} d={}", q, d), move |st, rep| {
+                st.states += 1;
+                match run_large(&q, d) {
+                    Ok((n, states)) => {
+                        st.evals += n;
+                        st.transitions += n * q.len() as u64;
+                        st.nontrivial += n;
+                        st.count("large_automaton_keys", n);
+                        st.max("max_automaton_states", states as u64);
+                        if states > 65536 { st.count("automata_with_more_than_65536_states", 1); }
+                    }
+                    Err(msg) => rep.violation(format!("large q={:?} d={}", q, d), msg, json!({"kind": "large", "q": q, "d": d})),
+                }
+            }));
+        }
+    }
     let lq: Vec<String> = strings(2);
     let chunk = (lq.len() + 31) / 32;
     for part in lq.chunks(chunk) {
@@ -300,6 +396,6 @@ pub fn plan(tier: Tier) -> Plan {
             }
         }));
     }
-    p.must_be_nonzero = vec!["searches".into(), "limits_checked".into(), "a11_triples".into(), "long_query_triples".into()];
+    p.must_be_nonzero = vec!["searches".into(), "limits_checked".into(), "a11_triples".into(), "long_query_triples".into(), "automata_with_more_than_65536_states".into()];
     p
 }
